@@ -5,4 +5,6 @@ from . import kit, ledger
 def run(ctx):
     res = ledger.run_ledger(ctx, "C02")
     kit.optimised_interpreter_probe(res, "ledger")
+    from . import c09
+    c09.side_branch_probe(ctx, res, ["reward_plus1", "reward_split_plus1", "overspend_by_1", "reward_no_fee_tx"], "C02")
     return res
